@@ -90,6 +90,10 @@ def run(prop, tier, seed, results, violations, undecided, infra):
                                  'iterations_each': iters, 'failing': sorted(native_found)})
     # ---- 2. Kani: bounded stand-in / conformance harnesses of this tier
     klist = list(spec.get('quick', [])) if tier == 'quick' else list(spec.get('thorough', spec.get('quick', [])))
+    if tier == 'thorough':
+        # conformance of the assumed shim contracts with the real dependency code (kani/src/h_shim.rs): part of every
+        # thorough run, whatever the property
+        klist += [h for h, i in REG.HARNESSES.items() if h.startswith('shim_') and i.get('kani', True) and h not in klist]
     kres = {}
     if klist and b[0]:
         info = KN.run_kani(klist, jobs=12, timeout=spec.get('timeout', 1500 if tier == 'quick' else 7200))
